@@ -829,3 +829,53 @@ package godi
 //@   vars md *reflection.Dependency, member *Descriptor
 //@   requires mirrors: md != nil && member != nil && md.Type == member.Type && md.Key == member.Key && md.Group == member.Group
 //@   ensures[C05,C06] edge_reaches_member: mk("graph.NodeKey", md.Type, md.Key, md.Group) == mk("graph.NodeKey", pure("graph.Provider.GetType", box(member)), pure("graph.Provider.GetKey", box(member)), pure("graph.Provider.GetGroup", box(member)))
+//
+// ---------------------------------------------------------------------------------------------
+// Error wrappers expose their cause (C15: errors.Is / errors.As reach the classifying error through every wrapper).
+//@ func ResolutionError.Unwrap
+//@   ensures[C15] exposes_cause: result == e.Cause
+//@ func RegistrationError.Unwrap
+//@   ensures[C15] exposes_cause: result == e.Cause
+//@ func ValidationError.Unwrap
+//@   ensures[C15] exposes_cause: result == e.Cause
+//@ func ModuleError.Unwrap
+//@   ensures[C15,C20] exposes_cause: result == e.Cause
+//@ func ReflectionAnalysisError.Unwrap
+//@   ensures[C15] exposes_cause: result == e.Cause
+//@ func GraphOperationError.Unwrap
+//@   ensures[C15] exposes_cause: result == e.Cause
+//@ func ConstructorInvocationError.Unwrap
+//@   ensures[C15] exposes_cause: result == e.Cause
+//@ func BuildError.Unwrap
+//@   ensures[C15] exposes_cause: result == e.Cause
+//
+// Generic helpers (C15: nil provider / nil key / empty group are rejected before anything is resolved).
+//@ func Provider.Get
+//@   nocheck
+//@   interferes
+//@ func Provider.GetKeyed
+//@   nocheck
+//@   interferes
+//@ func Provider.GetGroup
+//@   nocheck
+//@   interferes
+//@ func Resolve
+//@   safety[C15]
+//@   ensures[C15] nil_provider_rejected: provider == nil ==> result1 == ErrProviderNil && ncalls("Provider.Get") == 0
+//@   ensures[C04,C16] resolves_from_given_provider: provider != nil ==> ncalls("Provider.Get") == 1 && callarg("Provider.Get", 0, 0) == provider
+//@        && callarg("Provider.Get", 0, 1) == ext("(reflect.Type).Elem", "reflect.Type", ext("reflect.TypeOf", "reflect.Type", box(zero("*T"))))
+//@   ensures[C15] resolution_error_passed_through: provider != nil && callret("Provider.Get", 0, 1) != nil ==> result1 == callret("Provider.Get", 0, 1)
+//@   ensures[C15,C04] mismatch_is_classifiable: provider != nil && callret("Provider.Get", 0, 1) == nil && !typeis(callret("Provider.Get", 0, 0), "T") ==> typeis(result1, "*TypeMismatchError")
+//@   ensures[C04] value_is_the_resolved_one: provider != nil && callret("Provider.Get", 0, 1) == nil && typeis(callret("Provider.Get", 0, 0), "T") ==> result1 == nil && result0 == callret("Provider.Get", 0, 0)
+//@ func ResolveKeyed
+//@   safety[C15]
+//@   ensures[C15] nil_provider_rejected: provider == nil ==> result1 == ErrProviderNil && ncalls("Provider.GetKeyed") == 0
+//@   ensures[C15] nil_key_rejected: provider != nil && key == nil ==> result1 == ErrServiceKeyNil && ncalls("Provider.GetKeyed") == 0
+//@   ensures[C04] resolves_from_given_provider: provider != nil && key != nil ==> ncalls("Provider.GetKeyed") == 1 && callarg("Provider.GetKeyed", 0, 0) == provider && callarg("Provider.GetKeyed", 0, 2) == key
+//@ func ResolveGroup
+//@   safety[C15]
+//@   ensures[C15] nil_provider_rejected: provider == nil ==> result1 == ErrProviderNil && ncalls("Provider.GetGroup") == 0
+//@   ensures[C15] empty_group_rejected: provider != nil && group == "" ==> typeis(result1, "*ValidationError") && as(result1, "*ValidationError").Cause == ErrGroupNameEmpty && ncalls("Provider.GetGroup") == 0
+//@   ensures[C04] resolves_from_given_provider: provider != nil && group != "" ==> ncalls("Provider.GetGroup") == 1 && callarg("Provider.GetGroup", 0, 0) == provider && callarg("Provider.GetGroup", 0, 2) == group
+//@   loop 1
+//@     invariant in_order: len(results) == idx && (forall i int :: 0 <= i && i < idx ==> results[i] == services[i])
